@@ -184,6 +184,16 @@ func init() {
 				guardRe("polka exists", `^true\(`+pol+`#1\)$`),
 				guardCmp("polka is not for nil", `len\(`+pol+`#0\.Hash\)`, "!=", "0"),
 			)
+			// precommitting a block goes with (re)locking on it in this round
+			okLock, path := mustPrecede(s.Fn, call, func(in ssa.Instruction) bool {
+				st, ok := in.(*ssa.Store)
+				if !ok {
+					return false
+				}
+				fa, ok := st.Addr.(*ssa.FieldAddr)
+				return ok && isFieldOf(fa, "consensus/types", "RoundState", "LockedRound") && w.expr(st.Val) == R
+			})
+			c.Check(okLock, key+" after LockedRound = round", w.ipos(call), "the lock round is set to this round before the block precommit is cast", "a block precommit can be cast without LockedRound being set to this round (a later stale polka could unlock): "+pathStr(w, path))
 			c.anyGuards(s.Fn, call, key, "the precommitted block is in hand (locked or proposal block hashes to the polka id)", 1,
 				[]Guard{guardRe("l", `^true\(.*\.LockedBlock\.HashesTo\(`+pol+`#0\.Hash\)\)$`)},
 				[]Guard{guardRe("p", `^true\(.*\.ProposalBlock\.HashesTo\(`+pol+`#0\.Hash\)\)$`)})
